@@ -369,6 +369,40 @@ func c08PathShapes(r *ev.Result, base string) {
 		}
 		n++
 	}
+	/* A cache path that is a link onto a volume which is away for one start
+	(not mounted yet, a removable disk): that start fails, and the next one,
+	with the volume back, presents the key it always had. */
+	{
+		vol, away := filepath.Join(root, "vol"), filepath.Join(root, "vol-away")
+		os.MkdirAll(vol, 0o700)
+		link := filepath.Join(root, "cache-on-volume")
+		os.Symlink(filepath.Join("vol", "cert.txtar"), link)
+		v := func(sig, what string) {
+			r.Violate(ev.Violation{Signature: "path-shape/" + sig + "/link-onto-a-volume-that-is-away-once", Kind: "c08path", Replay: map[string]string{"cache_path_shape": "link-onto-a-volume-that-is-away-once"},
+				What: "cache path is a symbolic link onto a volume; start, start with the volume away, start with it back: " + what})
+		}
+		if c1, err, _ := c08Get(link, nil, nil); nil != err {
+			v("start-failed", fmt.Sprintf("first start: %v", err))
+		} else {
+			p1, _ := c08Serve(c1)
+			os.Rename(vol, away)
+			if c2, err, _ := c08Get(link, nil, nil); nil == err {
+				/* Starting without its cache is not wrong in itself, but then
+				it must not be another key that is *kept*. */
+				_ = c2
+			}
+			os.Rename(away, vol)
+			c3, err, _ := c08Get(link, nil, nil)
+			if nil != err {
+				v("start-failed", fmt.Sprintf("third start (volume back): %v", err))
+			} else if p3, _ := c08Serve(c3); p3 != p1 {
+				fi, lerr := os.Lstat(link)
+				isLink := nil == lerr && 0 != fi.Mode()&os.ModeSymlink
+				v("identity-changed", fmt.Sprintf("the third start presents %q, the first presented %q (the configured path is still a symbolic link: %v)", p3, p1, isLink))
+			}
+		}
+		n++
+	}
 	os.RemoveAll(root)
 	r.Add(n)
 	r.AddDistinct(n)
